@@ -37,6 +37,7 @@ var vApp, vAppFresh *Flame
 // VH_C05_setup builds the same application twice: one serves the whole
 // history of a path, the other only ever serves the request under observation.
 func VH_C05_setup() {
+	SetEnv(EnvTypeProd) // the panic page of development mode embeds a stack trace; what Recovery does is the same in every mode
 	vApp = vBuildApp()
 	vAppFresh = vBuildApp()
 }
@@ -84,6 +85,8 @@ func vBuildApp() *Flame {
 	f.Group("/g", func() {
 		f.Combo("/c").Get(h).Post(h)
 	}, func(c Context) {})
+	// a route that panics: Recovery walks the stack, reads source files and answers 500
+	f.Get("/p/{id}", func(c Context) { panic("boom:" + c.Param("id")) })
 	f.NotFound(func() string { return "nf" })
 	return f
 }
